@@ -68,6 +68,91 @@ func (i *Interp) mutexUnlock(p *value) {
 	i.syncEvent("unlock", p)
 }
 
+// sync.RWMutex is struct{w Mutex; writerSem, readerSem uint32; readerCount, readerWait atomic.Int32}.
+// Model: the writer flag lives in w's state cell, the number of active readers in the writerSem cell.
+func rwCells(p *value) (st, sema, readers *value) {
+	s := (*p).(structure)
+	if len(s) != 5 {
+		panic(fmt.Sprintf("unexpected sync.RWMutex layout: %d fields", len(s)))
+	}
+	st, sema = mutexCells(&s[0])
+	return st, sema, &s[1]
+}
+
+func cellInt(c *value) int64 {
+	if v, ok := (*c).(int64); ok {
+		return v
+	}
+	return 0
+}
+
+func (i *Interp) rwLock(p *value, read bool) {
+	if p == nil {
+		i.rtPanic("invalid memory address or nil pointer dereference")
+	}
+	st, sema, readers := rwCells(p)
+	busy := func() bool {
+		if read {
+			return cellInt(st) != 0
+		}
+		return cellInt(st) != 0 || cellInt(readers) != 0
+	}
+	what := "sync.RWMutex.Lock"
+	if read {
+		what = "sync.RWMutex.RLock"
+	}
+	if i.threads != nil {
+		t := i.threads
+		t.syncPoint(i, "Lock")
+		for busy() {
+			t.cur.status = tBlocked
+			t.cur.waitFor = p
+			t.yieldBlocked(i, what)
+		}
+		t.cur.status = tRunnable
+	} else if busy() {
+		panic(pathEnd{kind: "deadlock", msg: what + " on a lock that is held (single thread): would block forever at " + i.where()})
+	}
+	if read {
+		i.rawWrite(readers, cellInt(readers)+1)
+	} else {
+		i.rawWrite(st, int64(1))
+	}
+	_ = sema
+	if i.threads != nil {
+		i.threads.acquire(i, p)
+	}
+	i.syncEvent("lock", p)
+}
+
+func (i *Interp) rwUnlock(p *value, read bool) {
+	st, _, readers := rwCells(p)
+	if read {
+		if cellInt(readers) == 0 {
+			panic(targetPanic{iface{t: types.Typ[types.String], v: "fatal error: sync: RUnlock of unlocked RWMutex"}})
+		}
+	} else if cellInt(st) == 0 {
+		panic(targetPanic{iface{t: types.Typ[types.String], v: "fatal error: sync: Unlock of unlocked RWMutex"}})
+	}
+	if i.threads != nil {
+		i.threads.release(i, p)
+	}
+	if read {
+		i.rawWrite(readers, cellInt(readers)-1)
+	} else {
+		i.rawWrite(st, int64(0))
+	}
+	i.syncEvent("unlock", p)
+	if i.threads != nil {
+		for _, th := range i.threads.threads {
+			if th.status == tBlocked && th.waitFor == p {
+				th.status = tRunnable
+				th.waitFor = nil
+			}
+		}
+	}
+}
+
 func (i *Interp) syncEvent(kind string, p *value) {
 	if i.syncTrace != nil {
 		*i.syncTrace = append(*i.syncTrace, syncEv{kind: kind, obj: p})
